@@ -42,6 +42,9 @@ type fsRun struct {
 	LeakText string
 	Mutated  []string // destructive effects that succeeded, in order
 	Served   bool     // the body was handed to http.ServeContent
+	// the atoms that relate the source path to the destination path and how
+	// each came out (COPY/MOVE)
+	PathRel map[string]string
 }
 
 type fsExplorer struct {
@@ -538,9 +541,18 @@ func exploreFileServer(c *Ctx, r *RuleResult) []*fsRun {
 					}
 				}
 			}
+			if os.Getenv("GWFSTRACE") == run.Method {
+				fmt.Printf("   valuation: %s -> %s\n", valuationString(in.ch.valuation()), run.Status)
+			}
 			for k, v := range in.ch.valuation() {
 				if strings.HasPrefix(k, "eq(") && strings.Contains(k, "header:") && v == "equal" {
 					run.Headers[k] = v
+				}
+				if strings.Contains(k, "r.URL.Path") && strings.Contains(k, "header:\"Destination\"") && !strings.HasPrefix(k, "os.") {
+					if run.PathRel == nil {
+						run.PathRel = map[string]string{}
+					}
+					run.PathRel[k] = v
 				}
 			}
 			for _, o := range fx.os {
@@ -705,8 +717,17 @@ func requiredStatus(method string, f *osOutcome, run *fsRun) (want []string, why
 			return []string{"400", "403", "409", "412", "422", "502", "4xx"}, "moving a collection into itself is some 4xx"
 		case "ENOENT", "ENOTDIR":
 			// missing source (404) or missing destination parent (409): the
-			// rename alone cannot tell; either is accepted here, the
-			// ambiguity itself is recorded separately
+			// rename alone cannot tell. When the request has itself seen
+			// the source, it is the destination's parent that is missing
+			for i := range run.OS {
+				o := &run.OS[i]
+				if o == f {
+					break
+				}
+				if o.Call == "os.Stat" && o.Role == "target" && (o.Outcome == "file" || o.Outcome == "dir") {
+					return []string{"409"}, "the source was seen to exist, so the destination's parent collection is missing: 409"
+				}
+			}
 			return []string{"404", "409"}, "missing source is 404, missing destination parent is 409"
 		}
 	}
@@ -914,6 +935,17 @@ var allowedRefusals = map[string]map[string]string{
 	"MOVE":     {"400": "unmappable path, bad Depth/Overwrite/Destination", "404": "missing source", "412": "Overwrite F and the destination exists"},
 }
 
+// overlapObserved: some test relating the source path to the destination
+// path (equality, prefix, same file) came out positive in this run.
+func (run *fsRun) overlapObserved() bool {
+	for k, v := range run.PathRel {
+		if (strings.HasPrefix(k, "eq(") && v == "equal") || (!strings.HasPrefix(k, "eq(") && v == "true") {
+			return true
+		}
+	}
+	return false
+}
+
 func codeDecidedRefusals(c *Ctx, r *RuleResult, runs []*fsRun, methods map[string]bool) {
 	seen := map[string]bool{}
 	for _, run := range runs {
@@ -929,11 +961,18 @@ func codeDecidedRefusals(c *Ctx, r *RuleResult, runs []*fsRun, methods map[strin
 		}
 		r.Role("code-decided-refusal")
 		k := run.Method + "|" + run.Status
+		_, ok := allowedRefusals[run.Method][run.Status]
+		if !ok && run.Status == "403" && (run.Method == "COPY" || run.Method == "MOVE") && run.overlapObserved() {
+			// "403 when source and destination coincide (some 4xx when one
+			// contains the other)": the refusal is the code's answer to a
+			// comparison of the two paths that came out 'same' or 'inside'
+			ok = true
+			k += "|source and destination overlap"
+		}
 		if seen[k] {
 			continue
 		}
 		seen[k] = true
-		_, ok := allowedRefusals[run.Method][run.Status]
 		r.Ob(ok)
 		r.Sample(map[string]interface{}{"method": run.Method, "status": run.Status, "allowed": ok, "trace": run.describe()})
 		if !ok {
@@ -943,6 +982,25 @@ func codeDecidedRefusals(c *Ctx, r *RuleResult, runs []*fsRun, methods map[strin
 			}
 			sort.Strings(al)
 			r.Violation("refusal-code|"+k, "-", fmt.Sprintf("%s is refused with %s although no operating-system call failed; with nothing wrong in the file system the statement knows only %s for %s. Trace: %s", run.Method, run.Status, strings.Join(al, ", "), run.Method, run.describe()), nil)
+		}
+	}
+	// a prefix test between the two paths decides 'inside' only when the
+	// prefix ends in a separator: /a does not contain /ab
+	seenP := map[string]bool{}
+	for _, run := range runs {
+		if methods != nil && !methods[run.Method] {
+			continue
+		}
+		for k := range run.PathRel {
+			if !strings.HasPrefix(k, "strings.HasPrefix(") || seenP[k] {
+				continue
+			}
+			seenP[k] = true
+			ok := strings.HasSuffix(k, `+"/"))`) || strings.HasSuffix(k, `+"\\"))`)
+			r.Ob(ok)
+			if !ok {
+				r.Violation("prefix-without-separator|"+run.Method, "-", fmt.Sprintf("%s decides whether one of source and destination lies inside the other with %s: the prefix does not end in a path separator, so /a is taken to contain /ab and a legitimate request between siblings is refused (or a nested one is not)", run.Method, k), nil)
+			}
 		}
 	}
 	r.RequireRole("code-decided-refusal")
